@@ -99,6 +99,7 @@ let parse_leaf t : leaf =
   | "i32" -> LI32 (next_z t) | "i64" -> LI64 (next_z t)
   | "oct" -> LOctets (next_bytes t) | "time" -> LTime (next_z t)
   | "octz" -> let n = int_of_string ("0x" ^ next t) in LOctets (List.init n (fun _ -> btab.(0)))
+  | "octp" -> let n = int_of_string ("0x" ^ next t) in LOctets (List.init n (fun i -> btab.((i * 31 + 7 + i / 251) mod 256)))
   | "u32" -> LU32 (next_n t) | "u64" -> LU64 (next_n t) | "utf" -> LUtf8 (next_bytes t)
   | s -> raise (Parse ("leaf kind " ^ s))
 
@@ -241,6 +242,7 @@ let parse_rscript t : rev0 list =
   let n = next_int t in
   parse_list t (fun t -> match next t with
     | "p" -> RPending | "e" -> REof | "x" -> RErr
+    | "i" -> RErr     (* an interrupted read: tokio's read_exact reports it as the error it is; only used where one decode call is observed *)
     | s when String.length s >= 2 && String.sub s 0 2 = "t:" -> RPending
     | s when String.length s >= 2 && String.sub s 0 2 = "c:" -> RChunk (bytes_of_tok ("x" ^ String.sub s 2 (String.length s - 2)))
     | s -> raise (Parse ("rev " ^ s))) n
@@ -286,6 +288,7 @@ let handle (line : string) : string =
   (match next t with
    | "LIM" -> lim := next_int t; Buffer.add_string b "OK"
    | "DROP" -> let _ = next t in Buffer.add_string b "OK"
+   | "DGLOBALPOISON" -> Buffer.add_string b "OK"
    | "DGLOBAL" ->
        (* the library's process-wide default dictionary is no part of any dictionary the cases name: nothing changes *)
        Buffer.add_string b "OK"
@@ -343,7 +346,10 @@ let handle (line : string) : string =
             let (m, _) = hrun ds.ds_avps m0 ops in
             let budget = next_n t in
             let n = next_int t in
-            let behav = parse_list t (fun t -> let s = next t in if s = "i" then None else Some (n_of_hex s)) n in
+            (* "z" (the writer says Ok(0) instead of failing when it is full) is not a per-call behaviour: write_all turns Ok(0) into
+               an error, so the outcome is the one of a failing writer *)
+            let toks = parse_list t (fun t -> next t) n in
+            let behav = List.filter_map (fun s -> if s = "z" then None else Some (if s = "i" then None else Some (n_of_hex s))) toks in
             let w = { w_budget = budget; w_behav = behav } in
             (match enc_to m w with
              | Some (ok, acc) ->
@@ -454,7 +460,7 @@ let handle (line : string) : string =
        let held : (int * ev) list ref option ref = ref None in     (* H ... U: what the peer emits is delivered in one piece at U *)
        let apply_peer_now c e = (ms := mstep !ms (MPeer (nat_of_int c, e)); drain c) in
        let apply_peer c e = (match !held, e with
-                             | Some l, Peer _ -> l := (c, e) :: !l
+                             | Some l, (Peer _ | PeerBad) -> l := (c, e) :: !l      (* held: answers, and a stream end right behind them *)
                              | _ -> apply_peer_now c e) in
        let wire () = (match !sending with
                       | Some (h, c, i, g, k, false) -> sending := Some (h, c, i, g, k, true); ms := mstep !ms (MPeer (nat_of_int c, WireOut h)); drain c
@@ -463,6 +469,7 @@ let handle (line : string) : string =
        let wired_frames = ref 0 in                      (* whole request frames the peers end up with *)
        let faulted = ref false in
        let resolved_at : (int * int) list ref = ref [] in
+       let noat : int list ref = ref [] in
        let wstate g = (let (c, i) = List.assoc g !sends in List.nth (outcomes (cst c)) i) in
        let observe k =
          let cur = (match !sending with Some (_, _, _, g, _, _) -> g | None -> -1) in
@@ -491,6 +498,10 @@ let handle (line : string) : string =
                       apply_send (Register h);
                       if reg then begin sending := Some (h, c, i, g, 0, false); incr wired_frames; finish () end else begin sending := None; errs := g :: !errs end
                     done
+          | "AW" -> let g = next_int t in                          (* awaited in another task from now on: no completion index *)
+                    (match !sending with
+                     | Some (_, _, _, g', _, _) when g' = g -> ()        (* the send has not returned: there is no future to move yet *)
+                     | _ -> if g < !nsends && not (List.mem_assoc g !resolved_at) && not (List.mem g !errs) && not (List.mem_assoc g !labels) then noat := g :: !noat)
           | "RS" -> (* request h sent completely; future k dropped by the assignment, unseen *)
                     finish (); let h = next_n t in let k = next_int t in
                     let c = curc () in
@@ -567,7 +578,7 @@ let handle (line : string) : string =
          match List.assoc_opt g !labels with
          | Some l -> Buffer.add_string b (" " ^ l)
          | None ->
-           let at = (match List.assoc_opt g !resolved_at with Some k -> "@" ^ string_of_int k | None -> "") in
+           let at = (match List.assoc_opt g !resolved_at with Some k when not (List.mem g !noat) -> "@" ^ string_of_int k | _ -> "") in
            (match wstate g with
             | WGot f -> Buffer.add_string b (" GOT:" ^ hex_of_n f.hop0 ^ ":" ^ Printf.sprintf "%x" (int_of_nat f.fid) ^ at)
             | WDropped -> Buffer.add_string b (if List.mem g !errs then " ERR" else " ERR" ^ at)
